@@ -207,6 +207,8 @@ Definition cop (t : tag) (uid : nat) (st : step) : dynop :=
   | SFilterWithSide side q => op_filter t (sp q side) uid
   | SMapWithSideMap pairs dflt => op_map t TU (side_lookup pairs dflt) uid
   | STryMap f p => op_map t TRES (fun x => if pf p x then VSome (ef f x) else VNone) uid
+  | SDebug _ => op_map t t (fun x => x) uid
+  | SCustomMap f => op_map t TU (ef f) uid
   | _ => op_map t t (fun x => x) uid
   end.
 
@@ -237,7 +239,7 @@ Lemma compile_steps_ew_step : forall fuel st rest s,
 Proof.
   intros fuel st rest s H.
   destruct st as [f|p|g|f| |f|p|f|p|f|n b|n b| |c|c|c lf fo| | |k| |k rs rd
-                |side h|side q|pairs dflt|f p];
+                |side h|side q|pairs dflt|f p|k|f];
     try discriminate H; try reflexivity.
 Qed.
 
@@ -268,7 +270,7 @@ Lemma cop_tags : forall t uid st t',
 Proof.
   intros t uid st t' Hst Hty.
   destruct st as [f|p|g|f| |f|p|f|p|f|n b|n b| |c|c|c lf fo| | |k| |k rs rd
-                |side h|side q|pairs dflt|f p];
+                |side h|side q|pairs dflt|f p|k|f];
     try discriminate Hst; cbn [step_type] in Hty;
     try (inversion Hty; subst; split; reflexivity);
     try (destruct (Nat.eqb t TKV) eqn:E; [|discriminate Hty];
@@ -300,7 +302,7 @@ Lemma denote_steps_ew_step : forall fuel st rest rows,
 Proof.
   intros fuel st rest rows H.
   destruct st as [f|p|g|f| |f|p|f|p|f|n b|n b| |c|c|c lf fo| | |k| |k rs rd
-                |side h|side q|pairs dflt|f p];
+                |side h|side q|pairs dflt|f p|k|f];
     try discriminate H; reflexivity.
 Qed.
 
@@ -326,7 +328,7 @@ Lemma cop_fn : forall t uid st l,
 Proof.
   intros t uid st l H.
   destruct st as [f|p|g|f| |f|p|f|p|f|n b|n b| |c|c|c lf fo| | |k| |k rs rd
-                |side h|side q|pairs dflt|f p];
+                |side h|side q|pairs dflt|f p|k|f];
     try discriminate H.
   - (* SMap *) reflexivity.
   - (* SFilter *) reflexivity.
@@ -349,6 +351,8 @@ Proof.
   - (* SFilterWithSide *) reflexivity.
   - (* SMapWithSideMap *) reflexivity.
   - (* STryMap *) reflexivity.
+  - (* SDebug *) cbn [cop op_map mk_op op_fn]. rewrite map_id. reflexivity.
+  - (* SCustomMap *) reflexivity.
 Qed.
 
 Lemma map_as_flat_map : forall (A B : Type) (f : A -> B) l, map f l = flat_map (fun x => [f x]) l.
@@ -386,7 +390,7 @@ Lemma dstep_ew : forall st,
 Proof.
   intros st H.
   destruct st as [f|p|g|f| |f|p|f|p|f|n b|n b| |c|c|c lf fo| | |k| |k rs rd
-                |side h|side q|pairs dflt|f p];
+                |side h|side q|pairs dflt|f p|k|f];
     try discriminate H; unfold dstep; cbn [denote_steps].
   - eexists. intros l. apply map_as_flat_map.
   - eexists. intros l. apply filter_as_flat_map.
@@ -419,6 +423,9 @@ Proof.
   - (* STryMap *)
     eexists. intros l.
     apply (map_as_flat_map _ _ (fun x => if pf p x then VSome (ef f x) else VNone)).
+  - (* SDebug *)
+    exists (fun x => [x]). intros l. rewrite <- map_as_flat_map, map_id. reflexivity.
+  - (* SCustomMap *) eexists. intros l. apply map_as_flat_map.
 Qed.
 
 Lemma cop_ew : forall t uid st, elementwise_step st = true -> ew (cop t uid st).
